@@ -31,6 +31,12 @@ def _init_worker(modname, x64):
     import warnings
 
     warnings.filterwarnings("ignore")
+    # workers report through the result pipe only; jax.debug.print noise from solve goes to /dev/null
+    try:
+        devnull = os.open(os.devnull, os.O_WRONLY)
+        os.dup2(devnull, 1)
+    except OSError:
+        pass
     import jax
 
     jax.config.update("jax_enable_x64", bool(x64))
@@ -173,7 +179,7 @@ def main(argv=None):
     total_cases = len(cases)
     if args.limit:
         cases = cases[: args.limit]
-    nw = args.workers or int(os.environ.get("VERIF_WORKERS", "0") or 0) or (16 if args.tier == "thorough" else 12)
+    nw = args.workers or int(os.environ.get("VERIF_WORKERS", "0") or 0) or 16
     nw = max(1, min(nw, len(cases), os.cpu_count() or 1))
 
     results = [None] * len(cases)
